@@ -105,3 +105,14 @@ def poison(kind):
                     pass
     except Exception:  # noqa
         pass
+
+
+def twin(build, mutate):
+    """Twin probe: an object is built from the very same arguments as the object under test and then changed in place
+    (setters / attributes). The object under test is built afterwards; it must neither be the twin nor share mutable state
+    with it (memoised constructors, class-level or default-argument objects). Exceptions of the probe are ignored."""
+    try:
+        t = build()
+        mutate(t)
+    except Exception:  # noqa
+        pass
